@@ -48,6 +48,7 @@ func scoped(vocab string, ser string) map[string]any {
 		"since":      map[string]any{"@id": "v:since", "@type": "xsd:dateTime"},
 		"ref":        map[string]any{"@id": "v:ref", "@type": "@id"},
 		"spare":      map[string]any{"@id": "v:spare", "@type": "xsd:string"},
+		"discount":   map[string]any{"@id": "v:discount", "@type": "xsd:integer"},
 		"tags":       map[string]any{"@id": "v:tags", "@type": "xsd:string"},
 		"info": map[string]any{
 			"@id": "v:info",
@@ -105,7 +106,7 @@ type schemaInfo struct {
 }
 
 func schemas() []*schemaInfo {
-	all := []string{"name", "count", "price", "active", "since", "ref", "spare", "info.grade", "info.note"}
+	all := []string{"name", "count", "price", "active", "since", "ref", "spare", "discount", "info.grade", "info.note"}
 	return []*schemaInfo{
 		{Label: "own-merk", URL: ownMerkURL, Type: ownType, Other: ownOther, Merklized: true, AllPaths: all, Doc: ownContext("")},
 		{Label: "own-ser", URL: ownSerURL, Type: ownType, Other: ownOther, Merklized: false,
@@ -127,6 +128,7 @@ type credSpec struct {
 	Status        int    // 0 none, 1 plain, 2 with statusIssuer
 	NoSubjectType bool
 	NoServices    bool // no refreshService / displayMethod members
+	Zero          bool // the integer / dateTime fields hold values whose encoding is 0 (0, the epoch)
 	Variant       int  // value variant
 }
 
@@ -156,6 +158,12 @@ func buildDoc(sp credSpec) map[string]any {
 		cs["info"] = map[string]any{"grade": 7 + k, "note": fmt.Sprintf("note %d", k)}
 		if k%3 == 1 {
 			cs["tags"] = []any{"red", "green"}
+		}
+		if sp.Zero {
+			cs["count"] = 0
+			cs["discount"] = 0
+			cs["since"] = "1970-01-01T00:00:00Z"
+			cs["info"] = map[string]any{"grade": 0, "note": fmt.Sprintf("note %d", k)}
 		}
 	}
 	doc := map[string]any{
